@@ -334,6 +334,8 @@ func C17(c *Ctx) {
 	if fn := c.MustFunc("C17-5", "/pkg/util", "GetDocCommentOn"); fn != nil {
 		// isDocAddr: the address is &X.Doc of an ast node (possibly through a local pointer variable / φ)
 		nilEdge := map[*ssa.Phi]bool{}
+		nilCall := map[*ssa.Call]bool{}
+		helpers := map[*ssa.Function]bool{}
 		sawFileDoc := false
 		var isDocAddr func(a ssa.Value, d int) bool
 		isDocAddr = func(a ssa.Value, d int) bool {
@@ -359,6 +361,27 @@ func C17(c *Ctx) {
 					}
 				}
 				return len(x.Edges) > 0
+			case *ssa.Call: // a helper of the package that answers the address of the Doc member of its argument, or nil
+				callee := x.Call.StaticCallee()
+				if callee == nil || callee.Blocks == nil || pkgOf(callee) != pkgOf(fn) {
+					return false
+				}
+				helpers[callee] = true
+				k := 0
+				for _, hr := range core.Returns(callee) {
+					if len(hr.Results) != 1 {
+						return false
+					}
+					if kc, isK := hr.Results[0].(*ssa.Const); isK && kc.IsNil() {
+						nilCall[x] = true
+						continue
+					}
+					k++
+					if !isDocAddr(hr.Results[0], d+1) {
+						return false
+					}
+				}
+				return k > 0
 			case *ssa.UnOp: // load of a pointer variable
 				if al, ok := x.X.(*ssa.Alloc); ok && al.Referrers() != nil {
 					n := 0
@@ -402,6 +425,9 @@ func C17(c *Ctx) {
 				}
 				return x.V != nil && addrOf(x.V) != nil && addrOf(x.V) == addrOf(v)
 			}))
+			if hc, isCall := u.X.(*ssa.Call); okDoc && isLoad && isCall && nilCall[hc] {
+				okDoc = d.Implies(c.M(false, isNilCmp(func(x *core.Term) bool { return x.V == ssa.Value(hc) })))
+			}
 			if ph, isPhi := u.X.(*ssa.Phi); okDoc && isLoad && isPhi && nilEdge[ph] {
 				// the address itself may be nil: it must be tested too
 				okDoc = d.Implies(c.M(false, isNilCmp(func(x *core.Term) bool { return x.V == ssa.Value(ph) })))
@@ -417,7 +443,11 @@ func C17(c *Ctx) {
 				}
 			}
 		}
-		for _, af := range fn.AnonFuncs {
+		scan := append([]*ssa.Function{}, fn.AnonFuncs...)
+		for h := range helpers {
+			scan = append(scan, h)
+		}
+		for _, af := range scan {
 			for _, b := range af.Blocks {
 				for _, in := range b.Instrs {
 					if fa, ok := in.(*ssa.FieldAddr); ok && core.FieldName(fa.X.Type(), fa.Field) == "ast.File.Doc" {
